@@ -126,6 +126,15 @@ func (m *ModelTracker) Expect(suffix string, pos int) *Expectation {
 	return d.exps[pos]
 }
 
+// StateAt returns the model state in force after the first n anchored operations of the DID.
+func (m *ModelTracker) StateAt(suffix string, n int) *ref.State {
+	d := m.dids[suffix]
+	if d == nil || n == 0 || n > len(d.exps) {
+		return nil
+	}
+	return d.exps[n-1].State
+}
+
 func (m *ModelTracker) Final(suffix string) *ref.State {
 	if d := m.dids[suffix]; d != nil {
 		return d.cur
